@@ -427,7 +427,18 @@ func stageWiring(w *World, r *Report, ro *Roles, rule string) {
 		r.Check(ok, rule+".fields", fname+": "+k, w.Pos(gb.Pos()), k+" ← "+got[k], fmt.Sprintf("%s is wired to %q, expected the same task element's %s: a task runs another task's script, dependencies or failure policy", k, got[k], strings.Join(want[k], " | ")))
 	}
 	// the element ranges over the tasks parameter; stages are pushed back and passed on
-	okElem := strings.HasPrefix(E, "arg1[")
+	// (the task snapshot: the builder's task-list parameter, or the Tasks field of its job parameter)
+	okElem := false
+	for i, prm := range gb.Params {
+		ap := fmt.Sprintf("arg%d", i)
+		t := shapeString(prm.Type())
+		if strings.HasPrefix(t, "[]") && strings.HasPrefix(E, ap+"[") {
+			okElem = true
+		}
+		if strings.HasSuffix(t, "PipelineJob") && strings.HasPrefix(E, ap+".Tasks[") {
+			okElem = true
+		}
+	}
 	push, passed := false, false
 	for _, e := range p.Effects {
 		if e.Kind == "call" && e.Target == "append" && strings.HasSuffix(e.Val, ",[&local:complit]") {
